@@ -436,3 +436,74 @@ def cost_write(ctx):
     obs.append(Ob(r, "Base256Plan::write_unlatch", len(w) == 1 and w[0][2][1] == ("lit", 1), "leaving a long Base256 run books the second length codeword (1) into the symbol-fill counter"))
     obs += floor(obs, r, 5, "cost/write pairs")
     return obs
+
+
+def val_size(ctx):
+    """VAL-SIZE / PRICE-CONST: what the planner charges per character equals what the encoder tables emit."""
+    r = "VAL-SIZE"
+    f = ctx.facts()
+    from . import p_codec
+    obs = []
+    c40low, _ = p_codec.enc_c40_low_table(f, r)
+    textlow, _ = p_codec.enc_text_low_table(f, r, c40low)
+    enc = {"c40": p_codec.enc_to_vals_table(f, r, c40low)[0], "text": p_codec.enc_to_vals_table(f, r, textlow)[0]}
+    for mode in ("c40", "text"):
+        fn = "encodation::%s::val_size" % mode
+        need(fn in f.thir, r, fn)
+        b = f.thir[fn]
+        chp = b["params"][0]["pat"]["name"]
+
+        def fold_vs(ch, depth=0):
+            def on_call(folder, c):
+                if T.canon(T.callee_of(c)) == fn and depth < 3:
+                    return fold_vs(folder.fold(c["args"][0]), depth + 1)
+                return NotImplemented
+            return T.Folder(f, env={chp: ch}, on_call=on_call, effects=True).run(b["body"])
+        bad = None
+        for ch in range(256):
+            try:
+                v = fold_vs(ch)
+            except (T.Trap, T.Undecidable) as ex:
+                v = str(ex)
+            want = len(enc[mode][ch]) if isinstance(enc[mode].get(ch), list) else None
+            if v != want and bad is None:
+                bad = "byte 0x%02X: planner charges %r values, the encoder emits %r" % (ch, v, want)
+        obs.append(Ob(r, "%s:val_size" % mode, bad is None, "%s::val_size equals the number of values the encoder's tables emit, for all 256 bytes%s" % (mode, "" if not bad else ": " + bad), site=T.span_str(b["span"])))
+        base = p_codec.pred_table(f, "encodation::%s::in_base_set" % mode, r)
+        badb = [ch for ch in range(256) if base.get(ch) != (isinstance(enc[mode].get(ch), list) and len(enc[mode][ch]) == 1)]
+        obs.append(Ob(r, "%s:in_base_set" % mode, not badb, "%s::in_base_set holds exactly for the bytes encoded as a single value" % mode, detail=badb[:6]))
+    # planner charset adapters delegate to these tables
+    for impl, target in (("C40Charset", "c40"), ("TextCharset", "text")):
+        for m in ("val_size", "in_base_set"):
+            name = [n for n in f.thir if impl in n and n.endswith("CharsetInfo>::" + m)]
+            ok = False
+            if len(name) == 1:
+                e = T.sx(f.thir[name[0]]["body"], {})
+                ok = e[0] == "call" and e[1] == "encodation::%s::%s" % (target, m) and is_var(e[2][0], "ch")
+            obs.append(Ob(r, "%s::%s" % (impl, m), ok, "planner %s::%s delegates to encodation::%s::%s" % (impl, m, target, m)))
+    # per-character prices vs packing ratios
+    def frac_lits(suffix):
+        name = [n for n in f.thir if T.canon(n).endswith(suffix)]
+        need(len(name) == 1, r, suffix)
+        out = []
+        for c in T.calls(f.thir[name[0]]["body"]):
+            if T.canon(T.callee_of(c)).endswith("frac::Frac::new"):
+                a = [T.strip(x) for x in c["args"]]
+                if all(x.get("k") == "Lit" and "int" in x for x in a):
+                    out.append((a[0]["int"], a[1]["int"]))
+        return out
+    obs.append(Ob(r, "price:edifact", (3, 4) in frac_lits("EdifactPlan<T> as encodation::planner::Plan>::step"), "EDIFACT is priced 3/4 codeword per character (4 values in 3 codewords: TAB-CODEC edifact-pack)"))
+    obs.append(Ob(r, "price:x12", (2, 3) in frac_lits("X12Plan<T> as encodation::planner::Plan>::step"), "X12 is priced 2/3 codeword per character (3 values in 2 codewords: TAB-SETS pack3)"))
+    obs.append(Ob(r, "price:ascii-digit", (1, 2) in frac_lits("AsciiPlan<T> as encodation::planner::Plan>::step"), "an ASCII digit inside a pair is priced 1/2 codeword"))
+    # C40/Text: cost = 2 * values / 3
+    name = [n for n in f.thir if T.canon(n).endswith("C40LikePlan<T, U> as encodation::planner::Plan>::cost")]
+    ok = False
+    if len(name) == 1:
+        for c in T.calls(f.thir[name[0]]["body"]):
+            if T.canon(T.callee_of(c)).endswith("frac::Frac::new"):
+                a0, a1 = T.sx(c["args"][0]), T.sx(c["args"][1])
+                if a1 == ("lit", 3) and a0[0] == "bin" and a0[1] == "Mul" and ("lit", 2) in (a0[2], a0[3]):
+                    ok = True
+    obs.append(Ob(r, "price:c40", ok, "C40/Text price pending values at 2/3 codeword each"))
+    obs += floor(obs, r, 4 + 4 + 4, "planner/encoder table agreements")
+    return obs
